@@ -66,18 +66,20 @@ func (b *Builder) IsInt(x *Term) *Term {
 }
 
 type Term struct {
-	ID   int
-	Op   Op
-	Sort Sort
-	Args []*Term
-	Name string   // var / app name
-	I    *big.Int // const Int
-	R    *big.Rat // const Real
-	B    bool     // const Bool
-	Aux  int
-	Lo   *big.Int // interval for Int (nil = unbounded)
-	Hi   *big.Int
-	Size int // dag-agnostic size estimate (capped)
+	ID    int
+	Op    Op
+	Sort  Sort
+	Args  []*Term
+	Name  string   // var / app name
+	I     *big.Int // const Int
+	R     *big.Rat // const Real
+	B     bool     // const Bool
+	Aux   int
+	Lo    *big.Int // interval for Int (nil = unbounded)
+	Hi    *big.Int
+	Size  int     // dag-agnostic size estimate (capped)
+	sup   []int32 // sorted ids of the variables / uninterpreted symbols below (memo; see Support)
+	supOK bool
 }
 
 func (t *Term) IsConst() bool { return t.Op == OConst }
@@ -94,6 +96,7 @@ type Builder struct {
 	fresh  int
 	small  [smallN + 256]*Term
 	Apps   map[string]string // app name -> declaration "(declare-fun name (Int) Real)"
+	appIDs map[string]int32
 }
 
 func NewBuilder() *Builder {
@@ -1124,4 +1127,103 @@ func (b *Builder) FloorB(x *Term, lo, hi *big.Int) *Term {
 		return b.Floor(x)
 	}
 	return b.mk(&Term{Op: OToInt, Sort: SInt, Args: []*Term{x}, Lo: lo, Hi: hi})
+}
+
+// Support returns the sorted ids of the free variables and uninterpreted function symbols of t
+// (function symbols get negative ids). Memoised on the hash-consed term.
+func (b *Builder) Support(t *Term) []int32 {
+	if t.supOK {
+		return t.sup
+	}
+	var out []int32
+	switch t.Op {
+	case OConst:
+	case OVar:
+		out = []int32{int32(t.ID)}
+	default:
+		for _, a := range t.Args {
+			out = mergeSup(out, b.Support(a))
+		}
+		if t.Op == OApp {
+			if b.appIDs == nil {
+				b.appIDs = map[string]int32{}
+			}
+			id, ok := b.appIDs[t.Name]
+			if !ok {
+				id = -int32(len(b.appIDs) + 1)
+				b.appIDs[t.Name] = id
+			}
+			out = mergeSup(out, []int32{id})
+		}
+	}
+	t.sup, t.supOK = out, true
+	return out
+}
+
+func mergeSup(a, c []int32) []int32 {
+	if len(a) == 0 {
+		return c
+	}
+	if len(c) == 0 {
+		return a
+	}
+	out := make([]int32, 0, len(a)+len(c))
+	i, j := 0, 0
+	for i < len(a) && j < len(c) {
+		switch {
+		case a[i] < c[j]:
+			out = append(out, a[i])
+			i++
+		case a[i] > c[j]:
+			out = append(out, c[j])
+			j++
+		default:
+			out = append(out, a[i])
+			i++
+			j++
+		}
+	}
+	out = append(out, a[i:]...)
+	return append(out, c[j:]...)
+}
+
+// Slice returns the constraints of pc that are (transitively) connected to extra through shared
+// variables or function symbols, in their original order. If pc is satisfiable, pc && extra is
+// satisfiable exactly when Slice(pc, extra) && extra is.
+func (b *Builder) Slice(pc []*Term, extra *Term) []*Term {
+	rel := map[int32]bool{}
+	for _, v := range b.Support(extra) {
+		rel[v] = true
+	}
+	in := make([]bool, len(pc))
+	for changed := true; changed; {
+		changed = false
+		for i, c := range pc {
+			if in[i] {
+				continue
+			}
+			sup := b.Support(c)
+			hit := false
+			for _, v := range sup {
+				if rel[v] {
+					hit = true
+					break
+				}
+			}
+			if hit {
+				in[i] = true
+				changed = true
+				for _, v := range sup {
+					rel[v] = true
+				}
+			}
+		}
+	}
+	var out []*Term
+	for i, c := range pc {
+		if in[i] {
+			out = append(out, c)
+		}
+	}
+	return out
 }
